@@ -186,6 +186,15 @@ def boot(quiet: bool = True):
 
     _wrap_print_exception()
     install_serial_hashes()
+    # fandango.version() re-reads the package metadata on every parsed .fan file (3 ms each): a pure
+    # function of the installation, memoised here
+    try:
+        import functools
+        import importlib.metadata as _md
+
+        _md.version = functools.lru_cache(maxsize=None)(_md.version)
+    except Exception:
+        pass
     if quiet:
         logging.getLogger("fandango").setLevel(logging.CRITICAL)
         logging.getLogger("fandango").propagate = False
